@@ -73,13 +73,15 @@ class Value:
             network = Network(network)
         if denominator is None:
             denominator = network.denominator
-        else:
-            if isinstance(denominator, str):
-                dens = [den for den, symb in NETWORK_DENOMINATORS.items() if symb == denominator]
-                if dens:
-                    denominator = dens[0]
-            value = value * (network.denominator / denominator)
-        return cls(value or 0, denominator, network)
+        elif isinstance(denominator, str):
+            dens = [den for den, symb in NETWORK_DENOMINATORS.items() if symb == denominator]
+            if dens:
+                denominator = dens[0]
+        # Convert from the smallest unit in one step and only label the result with the requested denominator: rescaling
+        # to the denominator first adds float operations that lose the last unit of large amounts
+        value_obj = cls(value or 0, network.denominator, network)
+        value_obj.denominator = denominator / 1
+        return value_obj
 
     def __init__(self, value, denominator=None, network=DEFAULT_NETWORK):
         """
